@@ -21,7 +21,8 @@ where
 
     #[inline]
     fn count(h: usize, start: usize) -> usize {
-        h - start + 1
+        // `start` may be `h + 1` (empty window): add before subtracting so the count is 0 instead of underflowing
+        h + 1 - start
     }
 
     #[inline]
